@@ -1765,3 +1765,45 @@ func ruleConstantNilValue(c *Ctx, rule string, files []string) {
 		c.Ob(rule, "fast/constant-values", nil, false, "no constant Value handed to reflect found, at least 1 expected (Comp.Send)")
 	}
 }
+
+// ruleRealImagUntypedKind (K7): for an untyped constant argument real() and imag() yield an untyped *floating-point*
+// constant (spec, "Manipulating complex numbers"), whatever representation go/constant chose for the component. The
+// compiler of that case builds its result with untyped.MakeLit: the kind argument must be the constant untyped.Float,
+// not a kind computed from the value (constant.Real(2+3i) is represented as an integer, so real(2+3i)/4 became 0).
+func ruleRealImagUntypedKind(c *Ctx, rule string) {
+	pk := c.P.Pkg("fast")
+	if pk == nil {
+		c.Fatal("package fast not loaded")
+		return
+	}
+	info := pk.TypesInfo
+	n := 0
+	for _, fd := range c.P.FuncsOf("fast") {
+		if fd.Body == nil {
+			continue
+		}
+		usesRealImag := false
+		inspectCalls(fd.Body, func(call *ast.CallExpr) {
+			switch funcFullName(calleeOf(info, call)) {
+			case "go/constant.Real", "go/constant.Imag":
+				usesRealImag = true
+			}
+		})
+		if !usesRealImag {
+			continue
+		}
+		inspectCalls(fd.Body, func(call *ast.CallExpr) {
+			if funcFullName(calleeOf(info, call)) != "base/untyped.MakeLit" || len(call.Args) < 2 {
+				return
+			}
+			n++
+			o := usedObj(info, call.Args[0])
+			_, isConst := o.(*types.Const)
+			good := isConst && o.Name() == "Float"
+			c.Ob(rule, fmt.Sprintf("%s/MakeLit#%d", funcKey(pk, fd), n), call, good, "real()/imag() of an untyped constant is built with the constant kind untyped.Float (kind argument: "+exprString(call.Args[0])+")")
+		})
+	}
+	if n < 1 {
+		c.Ob(rule, "fast/real-imag-untyped", nil, false, "no function builds an untyped literal from constant.Real / constant.Imag: anchor missing")
+	}
+}
